@@ -170,6 +170,24 @@ CHECKS: dict[str, tuple[str, str, str, str, str]] = {
         "TLC-enumerated adversarial namings with expected verdicts (PtNames) replayed through "
         "generate_loopy; identifier assignment of the real kernel validated by TLC",
         "DESIGN.md section 4 C15"),
+    "C16": (
+        "exploration",
+        "Design level: TLC proves (spec/PtAffine.tla) over ALL pairs of affine forms with "
+        "coefficients in [-3,3] over 1 and 2 parameters that coefficient equality coincides with "
+        "equality on an affinely spanning grid of non-negative valuations. Implementation: the "
+        "pairs (all 2401 one-parameter pairs, sampled / all 117649 two-parameter pairs in "
+        "quick / thorough, sampled three-parameter pairs, biased to near-equal forms) are built "
+        "from SizeParam arithmetic, the real are_shape_components_equal and the accept/reject "
+        "of broadcasting, stacking and einsum axis matching are recorded, and TLC validates "
+        "every decision against CoeffEq. 15 templates over symbolic-shape placeholders: each "
+        "inferred symbolic shape component is exported and evaluated by TLC (PtSem) at every "
+        "size valuation against the concrete NumPy shape, and ONE compiled kernel per template "
+        "is executed at all sizes 1..6 and compared with NumPy.",
+        "Sizes are sampled for execution (C11 covers all sizes symbolically); floating-point "
+        "values compared with tolerance. Templates are hand-written, not generated.",
+        "TLC model checking of the equality rule (PtAffine) + TLC validation of recorded "
+        "decisions and of inferred shape expressions + execution of one kernel at many sizes",
+        "DESIGN.md section 4 C16"),
     "C19": (
         "model_checking",
         "Every index lambda the public API creates for the raisable operations (both operand "
